@@ -154,8 +154,10 @@ using namespace opensmt::tokens;
   \\\"          { yyextra->insertBuf('"');                                       }
   \\\\          { yyextra->insertBuf('\\');                                      }
   [^\\\n\"]     { yyextra->insertBuf(yyget_text(yyscanner)[0]);                  }
+  \\            { yyextra->insertBuf('\\'); /* a backslash that starts no escape stands for itself */ }
   \"            { yylval->str = strdup(yyextra->getBuf()); yyextra->clearBuf();
                     yy_pop_state(yyscanner); return TK_STR;                      }
+  <<EOF>>       { printf("Syntax error at line %d: end of input inside a string literal\n", yyget_lineno(yyscanner)); exit(1); }
 }
 
 \|              { yy_push_state(PSYM, yyscanner); }
@@ -168,6 +170,7 @@ using namespace opensmt::tokens;
   \|            { yylval->str = strdup(yyextra->getBuf()); yyextra->clearBuf();
                     yy_pop_state(yyscanner); return TK_QSYM;                     }
   \\            { printf("Syntax error at line %d near %s, \\ not allowed inside | ... |\n", yyget_lineno(yyscanner), yyget_text(yyscanner)); exit(1); }
+  <<EOF>>       { printf("Syntax error at line %d: end of input inside a quoted symbol\n", yyget_lineno(yyscanner)); exit(1); }
 }
 
 .               { printf( "Syntax error at line %d near %s\n", yyget_lineno(yyscanner), yyget_text(yyscanner) ); exit( 1 ); }
